@@ -12,7 +12,7 @@ ID = 'C10'
 LEVEL = 'exploration'
 RULE = ('LISTS: (L1) every labelled list tree over {itemize,enumerate,description} with <= 3 items per list, depth <= D and '
         '<= T items in total, item content in {one paragraph, two paragraphs, text+quote, text+tabular, bare nested list, '
-        'text+nested list+text} x optional [term]; (L2) every unlabelled shape of depth <= D with <= m items per list '
+        'text+nested list+text} x optional [term], typed tight and (smaller bound) with blank lines around items; (L2) every unlabelled shape of depth <= D with <= m items per list '
         '(<= S items in total), labelled by 3 kind rotations x 6 leaf-content rotations (menu plus quote-holding-a-list) x term pattern. '
         'TABLES: (T1) every preamble of n columns over column types x every subset of the n+1 bar positions x every '
         'spelling (plain, spaced, @{} at every gap on either side of a bar, every *{k}{unit} folding with 1- and 2-column units) x 3 bodies; '
@@ -587,6 +587,7 @@ def plan(tier):
         p.append(('T2', (2, 2, 2, 1), 2, {'wrap': 'item'}))
         p.append(('L1', (3, 3, 3), 8, {}))
         p.append(('L1', (2, 2, 2), 1, {'article': 1}))
+        p.append(('L1', (3, 3, 2), 1, {'loose': 1}))
         p.append(('L2', (3, 2, 99, 4), 4, {}))
         p.append(('L2', (3, 3, 6, 4, 3), 8, {}))
     else:
@@ -627,6 +628,7 @@ def plan(tier):
             p.append(('T2', (3, 2, 2, 0), 16, {'wrap': w}))
         p.append(('L1', (4, 3, 4), 128, {}))
         p.append(('L1', (3, 3, 3), 8, {'article': 1}))
+        p.append(('L1', (3, 3, 3), 8, {'loose': 1}))
         p.append(('L2', (4, 2, 99, 5, 1, 1, 1), 128, {}))
         p.append(('L2', (3, 3, 8, 5, 3), 64, {}))
         p.append(('L2', (4, 3, 7, 5, 3, 4), 64, {}))
